@@ -328,7 +328,8 @@ Lemma ok_parts S : server_ok_b S = true ->
   nodup_ids (ids S) = true /\ (forall t h, In (t, h) S -> t_id t <> 0%N) /\
   (forall t h inp, In (t, h) S -> In inp (t_ins t) -> fst inp = 0%N \/ In (fst inp) (ids S)).
 Proof.
-  unfold server_ok_b. intro H. apply andb_true_iff in H. destruct H as [H C].
+  unfold server_ok_b. intro H. apply andb_true_iff in H. destruct H as [H _].
+  apply andb_true_iff in H. destruct H as [H C].
   apply andb_true_iff in H. destruct H as [N Z]. apply negb_true_iff in Z.
   split; [exact N|split].
   - intros t h I E. assert (mem_id 0%N (ids S) = true); [|congruence].
@@ -1204,7 +1205,7 @@ Qed.
 (* a sync of address a against the current server state brings a's stored history up to it *)
 Definition good (s : state) (a : addr) : Prop :=
   match aget (pend s) a with
-  | None => incl (server_hist (server s) a) (get_hist s a)
+  | None => get_hist s a = server_hist (server s) a
   | Some (Fetched H _) => H = server_hist (server s) a
   | Some (Saved H) => H = server_hist (server s) a
   | Some HistSet => get_hist s a = server_hist (server s) a
@@ -1237,6 +1238,202 @@ Qed.
 Lemma get_hist_ensure_gap s c a : get_hist (ensure_gap s c) a = get_hist s a.
 Proof. destruct (ensure_gap_fields s c) as [_ [_ [_ [_ [E _]]]]]. unfold get_hist. rewrite E. reflexivity. Qed.
 
+(* ================================================================================================ *)
+(* canonical order: a server that lists no new entry for an address reports the identical history *)
+Lemma entry_lt_irrefl x : entry_lt x x = false.
+Proof.
+  unfold entry_lt. destruct (0 <? snd x)%Z.
+  - rewrite Z.ltb_irrefl, Z.eqb_refl, N.ltb_irrefl. reflexivity.
+  - apply N.ltb_irrefl.
+Qed.
+Lemma entry_lt_trans x y z : entry_lt x y = true -> entry_lt y z = true -> entry_lt x z = true.
+Proof.
+  unfold entry_lt. destruct x as [i h], y as [j k], z as [l m]. simpl.
+  destruct (Z.ltb_spec 0 h), (Z.ltb_spec 0 k), (Z.ltb_spec 0 m); intros A B; try discriminate; try reflexivity.
+  - apply orb_true_iff in A. apply orb_true_iff in B. apply orb_true_iff.
+    destruct A as [A|A], B as [B|B].
+    + left. apply Z.ltb_lt in A. apply Z.ltb_lt in B. apply Z.ltb_lt. lia.
+    + apply andb_true_iff in B. destruct B as [B1 B2]. apply Z.eqb_eq in B1. left.
+      apply Z.ltb_lt in A. apply Z.ltb_lt. lia.
+    + apply andb_true_iff in A. destruct A as [A1 A2]. apply Z.eqb_eq in A1. left.
+      apply Z.ltb_lt in B. apply Z.ltb_lt. lia.
+    + apply andb_true_iff in A. apply andb_true_iff in B. destruct A as [A1 A2], B as [B1 B2]. right.
+      apply Z.eqb_eq in A1. apply Z.eqb_eq in B1. apply N.ltb_lt in A2. apply N.ltb_lt in B2.
+      apply andb_true_iff. split. apply Z.eqb_eq. lia. apply N.ltb_lt. lia.
+  - apply N.ltb_lt in A. apply N.ltb_lt in B. apply N.ltb_lt. lia.
+Qed.
+
+Fixpoint ssorted (l : hist) : Prop :=
+  match l with [] => True | x :: r => (forall y, In y r -> entry_lt x y = true) /\ ssorted r end.
+
+Lemma sorted_b_ssorted l : sorted_b l = true -> ssorted l.
+Proof.
+  induction l as [|x r IH]; [simpl; auto|]. destruct r as [|y r'].
+  - intros _. simpl. split; [intros y []|exact Logic.I].
+  - intro H. change (entry_lt x y && sorted_b (y :: r') = true) in H.
+    apply andb_true_iff in H. destruct H as [H1 H2]. specialize (IH H2).
+    split; auto. intros z [J|J].
+    + subst. exact H1.
+    + destruct IH as [IH1 _]. eapply entry_lt_trans; eauto.
+Qed.
+
+Lemma ssorted_map_filter (f : stx -> bool) S :
+  ssorted (entries S) -> ssorted (map (fun x : stx => (t_id (fst x), snd x)) (filter f S)).
+Proof.
+  unfold entries. induction S as [|x S IH]; simpl; auto. intros [A B]. destruct (f x); simpl; auto.
+  split; auto. intros y J. apply A. apply in_map_iff in J. destruct J as [z [J1 J2]]. apply filter_In in J2.
+  apply in_map_iff. exists z. tauto.
+Qed.
+
+Lemma ssorted_notin x r : (forall y, In y r -> entry_lt x y = true) -> ~ In x r.
+Proof. intros A J. apply A in J. rewrite entry_lt_irrefl in J. discriminate. Qed.
+
+Lemma ssorted_eq : forall l1 l2, ssorted l1 -> ssorted l2 -> (forall e, In e l1 <-> In e l2) -> l1 = l2.
+Proof.
+  induction l1 as [|x r1 IH]; intros l2 S1 S2 E.
+  - destruct l2 as [|y r2]; auto. exfalso. apply (E y). simpl. auto.
+  - destruct l2 as [|y r2]; [exfalso; apply (E x); simpl; auto|].
+    simpl in S1, S2. destruct S1 as [A1 B1], S2 as [A2 B2].
+    assert (x = y).
+    { destruct (proj1 (E x) (or_introl eq_refl)) as [Q|Q]; [congruence|].
+      destruct (proj2 (E y) (or_introl eq_refl)) as [Q'|Q']; [congruence|].
+      exfalso. assert (T := entry_lt_trans _ _ _ (A1 _ Q') (A2 _ Q)). rewrite entry_lt_irrefl in T. discriminate. }
+    subst y. f_equal. apply IH; auto. intro e. split; intro J.
+    + destruct (proj1 (E e) (or_intror J)) as [Q|Q]; auto. subst e. exfalso. apply (ssorted_notin x r1 A1). exact J.
+    + destruct (proj2 (E e) (or_intror J)) as [Q|Q]; auto. subst e. exfalso. apply (ssorted_notin x r2 A2). exact J.
+Qed.
+
+Lemma ok_sorted S : server_ok_b S = true -> sorted_b (entries S) = true.
+Proof. unfold server_ok_b. intro H. apply andb_true_iff in H. tauto. Qed.
+
+Lemma touches_mono S0 S a t :
+  nodup_ids (ids S) = true -> (forall t h, In (t, h) S0 -> exists h', In (t, h') S) ->
+  touches S0 a t = true -> touches S a t = true.
+Proof.
+  intros N G. unfold touches. intro H. apply orb_true_iff in H. apply orb_true_iff. destruct H as [H|H]; auto.
+  right. apply existsb_exists in H. destruct H as [inp [J1 J2]]. apply existsb_exists. exists inp. split; auto.
+  unfold spends_from, out_at in *. destruct (find_tx S0 (fst inp)) as [t0|] eqn:E0; [|discriminate].
+  apply find_tx_some in E0. destruct E0 as [E0 [h0 T0]]. destruct (G _ _ T0) as [h1 T1].
+  destruct (find_tx_exists _ _ _ T1) as [t2 Q]. rewrite E0 in Q. rewrite Q.
+  apply find_tx_some in Q. destruct Q as [Q1 [h2 Q2]].
+  assert (X := nodup_ids_inj S N _ _ _ _ Q2 T1 (eq_trans Q1 (eq_sym E0))). inversion X; subst. exact J2.
+Qed.
+
+Lemma hist_stable S0 S a : server_ok_b S0 = true -> server_ok_b S = true ->
+  (forall t h, In (t, h) S0 -> exists h', In (t, h') S) ->
+  incl (server_hist S a) (server_hist S0 a) -> server_hist S a = server_hist S0 a.
+Proof.
+  intros O0 O G I. destruct (ok_parts _ O0) as [N0 _]. destruct (ok_parts _ O) as [N _].
+  apply ssorted_eq.
+  - apply ssorted_map_filter. apply sorted_b_ssorted. apply ok_sorted. exact O.
+  - apply ssorted_map_filter. apply sorted_b_ssorted. apply ok_sorted. exact O0.
+  - intro e. split; [apply I|]. intro J. apply server_hist_In in J. destruct J as [t [h [T [TO E]]]]. subst e.
+    destruct (G _ _ T) as [h' T'].
+    assert (J': In (t_id t, h') (server_hist S a)).
+    { apply server_hist_In. exists t, h'. split; [|split]; auto. eapply touches_mono; eauto. }
+    assert (J2 := I _ J'). apply server_hist_In in J2. destruct J2 as [t2 [h2 [T2 [_ E2]]]].
+    injection E2 as E3 E4.
+    assert (X := nodup_ids_inj S0 N0 _ _ _ _ T T2 E3). injection X as X1 X2. subst. exact J'.
+Qed.
+
+(* every stored history is the history some earlier server state reported *)
+Definition from_server (s : state) (a : addr) (l : hist) : Prop :=
+  exists S0, server_ok_b S0 = true /\ (forall t h, In (t, h) S0 -> exists h', In (t, h') (server s)) /\
+             l = server_hist S0 a.
+
+Definition stage_from_server (s : state) (a : addr) (st : stage) : Prop :=
+  match st with Fetched H _ => from_server s a H | Saved H => from_server s a H | HistSet => True end.
+
+Record HInv (s : state) : Prop := mkHInv {
+  h_ok : server_ok_b (server s) = true;
+  h_hist : forall a, from_server s a (get_hist s a);
+  h_pend : forall a st, aget (pend s) a = Some st -> stage_from_server s a st
+}.
+
+Lemma from_server_grow s s' a l : (forall t h, In (t, h) (server s) -> exists h', In (t, h') (server s')) ->
+  from_server s a l -> from_server s' a l.
+Proof.
+  intros G [S0 [A [B C]]]. exists S0. split; [|split]; auto. intros t h J. destruct (B _ _ J) as [h1 J1]. eauto.
+Qed.
+Lemma from_server_same s s' a l : server s' = server s -> from_server s a l -> from_server s' a l.
+Proof. intros E. apply from_server_grow. rewrite E. eauto. Qed.
+Lemma stage_from_server_grow s s' a st : (forall t h, In (t, h) (server s) -> exists h', In (t, h') (server s')) ->
+  stage_from_server s a st -> stage_from_server s' a st.
+Proof. intro G. destruct st; simpl; auto; apply from_server_grow; auto. Qed.
+Lemma from_server_nil s a : from_server s a [].
+Proof. exists []. split; [reflexivity|split]. intros t h []. reflexivity. Qed.
+
+Lemma hinv_step s o s' : step s o = Some s' -> HInv s -> HInv s'.
+Proof.
+  intros ST I. destruct o as [S'|a st|a|a|a|c]; simpl in ST.
+  - destruct (server_ok_b S' && grows_b (server s) S') eqn:E; [|discriminate]. inversion ST; subst; clear ST.
+    apply andb_true_iff in E. destruct E as [E1 E2]. assert (G := grows_sound _ _ E2).
+    constructor; cbn [server pend].
+    + exact E1.
+    + intro a. eapply from_server_grow; [|apply (h_hist s I a)]. exact G.
+    + intros a st J. eapply stage_from_server_grow; [|apply (h_pend s I a st J)]. exact G.
+  - destruct (known s a); [|discriminate]. destruct (aget (pend s) a) eqn:PA; [discriminate|].
+    inversion ST; subst; clear ST.
+    destruct (begin_cases s a st) as [[E _]|[B E]]; rewrite E; auto.
+    constructor; cbn [server pend set_pend].
+    + apply (h_ok s I).
+    + intro b. apply (from_server_same s); auto. apply (h_hist s I b).
+    + intros b st0 J. rewrite aget_aset_if in J. destruct (addr_eqb a b) eqn:EA.
+      * apply addr_eqb_eq in EA. subst b. inversion J; subst. simpl.
+        exists (server s). split; [apply (h_ok s I)|split]; eauto.
+      * destruct st0; simpl; auto; apply (from_server_same s); auto; apply (h_pend s I b _ J).
+  - destruct (aget (pend s) a) as [[H B|H|]|] eqn:PA; try discriminate. inversion ST; subst; clear ST.
+    constructor; unfold save; cbn [server pend].
+    + apply (h_ok s I).
+    + intro b. unfold get_hist. cbn [hists]. rewrite aget_aset_if. destruct (addr_eqb a b).
+      * apply from_server_nil.
+      * apply (from_server_same s); auto. apply (h_hist s I b).
+    + intros b st0 J. rewrite aget_aset_if in J. destruct (addr_eqb a b) eqn:EA.
+      * apply addr_eqb_eq in EA. subst b. inversion J; subst. simpl.
+        apply (from_server_same s); auto. apply (h_pend s I a _ PA).
+      * destruct st0; simpl; auto; apply (from_server_same s); auto; apply (h_pend s I b _ J).
+  - destruct (aget (pend s) a) as [[H B|H|]|] eqn:PA; try discriminate. inversion ST; subst; clear ST.
+    constructor; unfold set_history; cbn [server pend].
+    + apply (h_ok s I).
+    + intro b. unfold get_hist. cbn [hists]. rewrite aget_aset_if. destruct (addr_eqb a b) eqn:EA.
+      * apply addr_eqb_eq in EA. subst b. apply (from_server_same s); auto. apply (h_pend s I a _ PA).
+      * apply (from_server_same s); auto. apply (h_hist s I b).
+    + intros b st0 J. rewrite aget_aset_if in J. destruct (addr_eqb a b) eqn:EA.
+      * inversion J; subst. exact Logic.I.
+      * destruct st0; simpl; auto; apply (from_server_same s); auto; apply (h_pend s I b _ J).
+  - destruct (aget (pend s) a) as [[H B|H|]|] eqn:PA; try discriminate.
+    destruct (chain_of a) as [c|]; [|discriminate]. inversion ST; subst; clear ST.
+    destruct (ensure_gap_fields (set_pend s (adel (pend s) a)) c) as [E1 [_ [_ [_ [E2 [E3 _]]]]]].
+    constructor.
+    + rewrite E1. apply (h_ok s I).
+    + intro b. rewrite get_hist_ensure_gap. apply (from_server_same s); auto. apply (h_hist s I b).
+    + intros b st0 J. rewrite E3 in J. cbn [pend set_pend] in J. destruct (addr_eqb a b) eqn:EA.
+      * apply addr_eqb_eq in EA. subst b. rewrite aget_adel_same in J. discriminate.
+      * apply addr_eqb_neq in EA. rewrite aget_adel_other in J; auto.
+        destruct st0; simpl; auto; apply (from_server_same s); auto; apply (h_pend s I b _ J).
+  - inversion ST; subst. destruct (ensure_gap_fields s c) as [E1 [_ [_ [_ [E2 [E3 _]]]]]].
+    constructor.
+    + rewrite E1. apply (h_ok s I).
+    + intro b. rewrite get_hist_ensure_gap. apply (from_server_same s); auto. apply (h_hist s I b).
+    + intros b st0 J. rewrite E3 in J.
+      destruct st0; simpl; auto; apply (from_server_same s); auto; apply (h_pend s I b _ J).
+Qed.
+
+Lemma hinv_init g : HInv (init g).
+Proof.
+  constructor; simpl.
+  - reflexivity.
+  - intro a. apply from_server_nil.
+  - intros a st J. discriminate.
+Qed.
+
+Lemma hinv_run ops : forall s s', run s ops = Some s' -> HInv s -> HInv s'.
+Proof.
+  induction ops as [|o ops IH]; simpl; intros s s' R I.
+  - inversion R; subst. exact I.
+  - destruct (step s o) as [s1|] eqn:ST; [|discriminate]. eapply IH; eauto. eapply hinv_step; eauto.
+Qed.
+
 Lemma step_good_keep s o s' a : step s o = Some s' -> is_server o = false -> good s a -> good s' a.
 Proof.
   intros ST NS G. destruct o as [S'|b st|b|b|b|c]; simpl in ST; [discriminate| | | | |].
@@ -1264,8 +1461,7 @@ Proof.
     destruct (ensure_gap_fields (set_pend s (adel (pend s) b)) c) as [E1 [_ [_ [_ [_ [E2 _]]]]]].
     destruct (addr_eqb b a) eqn:EA.
     + apply addr_eqb_eq in EA. subst. unfold good in *. rewrite PB in G. rewrite E1, E2. cbn [pend set_pend server].
-      rewrite aget_adel_same. rewrite get_hist_ensure_gap. unfold get_hist in *. cbn [hists set_pend]. rewrite G.
-      apply incl_refl.
+      rewrite aget_adel_same. rewrite get_hist_ensure_gap. unfold get_hist in *. cbn [hists set_pend]. exact G.
     + apply addr_eqb_neq in EA. apply (good_ext s); auto.
       * rewrite E2. cbn [pend set_pend]. apply aget_adel_other; auto.
       * rewrite get_hist_ensure_gap. reflexivity.
@@ -1273,19 +1469,21 @@ Proof.
     apply (good_ext s); auto. rewrite E2. reflexivity. apply get_hist_ensure_gap.
 Qed.
 
-Lemma step_begin_good s a s' : step s (Begin a (server_hist (server s) a)) = Some s' -> good s' a.
+Lemma step_begin_good s a s' : HInv s -> step s (Begin a (server_hist (server s) a)) = Some s' -> good s' a.
 Proof.
-  simpl. destruct (known s a); [|discriminate]. destruct (aget (pend s) a) eqn:PA; [discriminate|].
+  intro HI. simpl. destruct (known s a); [|discriminate]. destruct (aget (pend s) a) eqn:PA; [discriminate|].
   intro ST. inversion ST; subst; clear ST.
   destruct (begin_cases s a (server_hist (server s) a)) as [[E Q]|[B E]]; rewrite E.
-  - unfold good. rewrite PA. destruct Q as [Q|Q]; auto. rewrite Q. apply incl_refl.
+  - unfold good. rewrite PA. destruct Q as [Q|Q]; auto.
+    destruct (h_hist s HI a) as [S0 [O0 [G0 E0]]]. rewrite E0 in *. symmetry.
+    apply hist_stable; auto. apply (h_ok s HI).
   - unfold good. cbn [pend set_pend server]. rewrite aget_aset_same. reflexivity.
 Qed.
 
-Lemma run_good ops : forall s s' a, run s ops = Some s' -> forallb (fun o => negb (is_server o)) ops = true ->
+Lemma run_good ops : forall s s' a, HInv s -> run s ops = Some s' -> forallb (fun o => negb (is_server o)) ops = true ->
   good s a \/ In (Begin a (server_hist (server s) a)) ops -> server s' = server s /\ good s' a.
 Proof.
-  induction ops as [|o ops IH]; simpl; intros s s' a R NS H.
+  induction ops as [|o ops IH]; simpl; intros s s' a HI R NS H.
   - inversion R; subst. destruct H as [H|[]]. auto.
   - destruct (step s o) as [s1|] eqn:ST; [|discriminate].
     apply andb_true_iff in NS. destruct NS as [N1 N2]. apply negb_true_iff in N1.
@@ -1296,7 +1494,7 @@ Proof.
       - left. eapply step_good_keep; eauto.
       - left. subst o. eapply step_begin_good; eauto.
       - right. rewrite ES. exact H. }
-    destruct (IH _ _ _ R N2 G1) as [A B]. split; auto. congruence.
+    destruct (IH _ _ _ (hinv_step _ _ _ ST HI) R N2 G1) as [A B]. split; auto. congruence.
 Qed.
 
 (* ================================================================================================ *)
@@ -1337,11 +1535,11 @@ Lemma address_complete g ops1 ops2 s1 s2 a :
   run (init g) ops1 = Some s1 -> run s1 ops2 = Some s2 -> no_server ops2 ->
   In (Begin a (server_hist (server s1) a)) ops2 ->
   server s2 = server s1 /\
-  (aget (pend s2) a = Some HistSet -> get_hist s2 a = server_hist (server s2) a) /\
-  (aget (pend s2) a = None -> incl (server_hist (server s2) a) (get_hist s2 a)).
+  (aget (pend s2) a = Some HistSet \/ aget (pend s2) a = None -> get_hist s2 a = server_hist (server s2) a).
 Proof.
-  intros R1 R2 NS B. destruct (run_good _ _ _ a R2 NS (or_intror B)) as [E G].
-  split; auto. unfold good in G. split; intro P; rewrite P in G; exact G.
+  intros R1 R2 NS B. assert (HI := hinv_run _ _ _ R1 (hinv_init g)).
+  destruct (run_good _ _ _ a HI R2 NS (or_intror B)) as [E G].
+  split; auto. unfold good in G. intros [P|P]; rewrite P in G; exact G.
 Qed.
 
 Section Recorded.
@@ -1385,10 +1583,14 @@ End Recorded.
 
 Lemma in_sync_reached g ops1 ops2 s1 s2 :
   run (init g) ops1 = Some s1 -> run s1 ops2 = Some s2 -> no_server ops2 -> quiescent s2 ->
-  (forall a, known s2 a = true -> In (Begin a (server_hist (server s1) a)) ops2) -> in_sync s2.
+  (forall a, known s2 a = true -> In (Begin a (server_hist (server s1) a)) ops2) ->
+  in_sync s2 /\ forall a, known s2 a = true -> get_hist s2 a = server_hist (server s2) a.
 Proof.
-  intros R1 R2 NS Q B a K. destruct (run_good _ _ _ a R2 NS (or_intror (B a K))) as [E G].
-  unfold good in G. rewrite Q in G. exact G.
+  intros R1 R2 NS Q B. assert (HI := hinv_run _ _ _ R1 (hinv_init g)).
+  assert (X: forall a, known s2 a = true -> get_hist s2 a = server_hist (server s2) a).
+  { intros a K. destruct (run_good _ _ _ a HI R2 NS (or_intror (B a K))) as [E G].
+    unfold good in G. rewrite Q in G. exact G. }
+  split; auto. intros a K. rewrite (X a K). apply incl_refl.
 Qed.
 
 Lemma gap_found g ops s : run (init g) ops = Some s -> quiescent s -> in_sync s ->
